@@ -11,6 +11,7 @@ import ProfiVerif.Model.Gsd.Peg
 import ProfiVerif.Lemmas.PegAst
 import ProfiVerif.Lemmas.PegFuel
 import ProfiVerif.Lemmas.PegTextDesc
+import ProfiVerif.Lemmas.PegTextDescAll
 
 namespace PV.C19
 open PV.Gsd
@@ -192,6 +193,33 @@ theorem text_faithful_scalars_partial (d : Desc) (h : ScalarsOk d) (hq : Peg.Sca
   simp only [interp, run_scalars d h]
   rfl
 
+/-- **Text-level faithfulness, all interpreted statement kinds, canonical rendering.**  For every
+non-empty list of canonical statements — settings as above, `PrmText … EndPrmText` blocks,
+`ExtUserPrmData … EndExtUserPrmData` blocks (data type `Bit(n)` / `BitArea(a-b)` / identifier, default,
+optional range or value set, optional `Prm_Text_Ref` / `Changeable` / `Visible` lines),
+`Module … EndModule` blocks (name, configuration bytes, optional reference line, setting lines),
+`SlotDefinition … EndSlotDefinition` with `Slot(n)="…" d a-b | v1,v2,…` lines and
+`Unit_Diag_Area … Unit_Diag_Area_End` blocks — the model parser, run on the canonical text `renderAst`
+(`#Profibus_DP`, one statement per line / block, single blanks between tokens that would merge,
+LF line ends), answers exactly the interpretation of that statement list. -/
+theorem text_faithful_partial (st : Stmt) (rest : Ast) (h : ∀ x ∈ st :: rest, Peg.StmtCanon x) :
+    parse (Peg.renderAst (st :: rest)) = some (interp (st :: rest)) :=
+  Peg.parse_renderAst fuel_checked st rest h
+
+/-- **`parse (render d) = d` for the canonical rendering**: for every description `d` of the
+printer's domain (`Desc.WF`, as in `interp_faithful`) that the canonical text can express
+(`Peg.DescCanon`: no quotation mark inside strings, parameter byte lists of at least two bytes,
+non-empty module configurations, slot module sets, text tables, enumerations and area value tables),
+parsing the canonical text of `d` — text → PEG → pair tree → `toAst` → `interp` — returns exactly `d`. -/
+theorem text_faithful_desc_partial (d : Desc) (h : d.WF) (hc : Peg.DescCanon d) :
+    ∃ ws, parse (Peg.renderAst (astOf d)) = some (.ok (d, ws)) := by
+  obtain ⟨ws, hws⟩ := interp_faithful d h
+  refine ⟨ws, ?_⟩
+  have hcan := Peg.astOf_canon d hc
+  obtain ⟨st, rest, hast⟩ : ∃ st rest, astOf d = st :: rest := ⟨_, _, rfl⟩
+  rw [hast] at hcan hws ⊢
+  rw [text_faithful_partial st rest hcan, hws]
+
 /-- Hypotheses are satisfiable, and the text is the expected one. -/
 def exampleSetting : Setting :=
   { key := "Ext_User_Prm_Data_Const".toList, index := some (.dec ("0".toList)),
@@ -265,5 +293,34 @@ example : exampleDesc.WF where
     simp only [exampleDesc, List.mem_singleton] at ha
     subst ha
     exact ⟨by decide, by decide, by decide, by decide⟩
+
+/-- `exampleDesc` (every kind of content) satisfies the additional hypothesis. -/
+example : Peg.DescCanon exampleDesc where
+  scalars := by constructor <;> decide
+  defs := by
+    intro f hf
+    simp only [allDefs, moduleDefs, exampleDesc, List.map_nil, List.nil_append, List.flatMap_cons, List.flatMap_nil,
+      List.map_cons, List.append_nil, List.mem_singleton] at hf
+    subst hf
+    exact ⟨by decide, by intro vs hvs; cases hvs; decide,
+      by intro m hm; cases hm; exact ⟨by decide, by decide⟩⟩
+  prm := by decide
+  modules := by
+    intro m hm
+    simp only [exampleDesc, List.mem_singleton] at hm
+    subst hm
+    exact ⟨by decide, by decide, by intro t ht; cases ht; decide, by decide⟩
+  slots := by decide
+  bits := by
+    intro b hb
+    simp only [exampleDesc, List.mem_singleton] at hb
+    subst hb
+    exact ⟨by decide, by intro t ht; cases ht; decide⟩
+  notBits := by intro b hb; cases hb
+  areas := by
+    intro a ha
+    simp only [exampleDesc, List.mem_singleton] at ha
+    subst ha
+    exact ⟨by decide, by decide⟩
 
 end PV.C19
